@@ -30,7 +30,7 @@ def gen_param(rng, size):
     return rng.choice([0, 1, 1, 2, max(1, size // 2), size, size + 1, 99999, 0])
 
 
-def gen_tokens(rng, rows, cols, n, uni):
+def gen_tokens(rng, rows, cols, n, uni, surr=False):
     toks = []
     for _ in range(n):
         r = rng.random()
@@ -70,6 +70,20 @@ def gen_tokens(rng, rows, cols, n, uni):
             else:
                 toks.append(rng.choice([u'\x1b7', u'\x1b8', u'\x1bM', u'\x1b>', u'\x1b<', u'\x1b=', u'\x1b(A', u'\x1b)0',
                                         u'\x1b#8', u'\x1b(B']))
+        elif rng.random() < 0.06:
+            # a parameter of thousands of digits (a corrupted or hostile stream): far beyond what int() converts by default
+            nd = rng.choice([4299, 4300, 4301, 5000, 9000])
+            digits = rng.choice(u'123456789') + u''.join(rng.choice(u'0123456789') for _ in range(nd - 1))
+            if rng.random() < 0.3:
+                digits = u'0' * rng.choice([1, 5000]) + digits
+            form = rng.choice([u'%sA', u'%sB', u'%sC', u'%sD', u'%s;1H', u'1;%sH', u'%s;%sr', u'%sJ', u'%sK', u'1;2;%sm', u'?%sh',
+                               u'%sl', u'%sm', u'1;%sr'])
+            toks.append(u'\x1b[' + form.replace(u'%s', digits))
+        elif surr and rng.random() < 0.3:
+            # a str may hold a lone surrogate (os.fsdecode of a badly encoded file name, surrogateescape streams): as the
+            # unexpected character of an unknown sequence it is still just a character
+            sg = rng.choice(u'\udc80\udcff\ud800')
+            toks.append(rng.choice([u'\x1b' + sg, u'\x1b[' + sg, u'\x1b[1;' + sg, u'\x1b[1;2' + sg, u'\x1b[?' + sg, u'\x1b(' + sg]))
         elif uni and rng.random() < 0.25:
             # parameters written with decimal digits that are not ASCII (Arabic-Indic, fullwidth, Devanagari): for the
             # terminal they are not digits at all, so the sequence ends at the first of them and the rest is printed
@@ -101,7 +115,8 @@ def generate(rng):
     scn['mode'] = rng.choice(['bytes', 'unicode']) if scn['transport'] != 'direct' else rng.choice(['bytes', 'str'])
     scn['tenc'] = 'utf-8' if uni else rng.choice(['latin-1', 'utf-8'])
     n = rng.choice([1, 2, 4, 8, 20, 60])
-    toks = gen_tokens(rng, rows, cols, n, uni)
+    surr = scn['transport'] == 'direct' and scn['mode'] == 'str' and rng.random() < 0.3
+    toks = gen_tokens(rng, rows, cols, n, uni, surr)
     if rng.random() < 0.15 and toks:
         # truncated final sequence (the child died mid-sequence)
         t = toks[-1]
@@ -109,10 +124,13 @@ def generate(rng):
             toks[-1] = t[:rng.randint(1, len(t) - 1)]
             scn['truncated'] = True
     scn['tokens'] = toks
-    data = u''.join(toks).encode(scn['tenc'] if scn['mode'] != 'str' else 'utf-8')
+    data = u''.join(toks).encode(scn['tenc']) if scn['mode'] != 'str' else u''.join(toks)
     k = rng.choice([0, 1, 2, 3, 6])
     scn['cuts'] = sorted(set(rng.randint(1, max(1, len(data) - 1)) for _ in range(k))) if len(data) > 1 else []
     scn['how'] = rng.choice(['split_write', 'torn_read', 'maxread'])
+    if scn['transport'] == 'direct' and rng.random() < 0.25:
+        # the application feeds the terminal itself, one byte (or one character) at a time, through process()
+        scn['how'] = 'process'
     scn['maxread'] = rng.choice([1, 2, 3, 7]) if scn['how'] == 'maxread' else 2000
     if rng.random() < 0.004:
         # one very large write (a whole capture file handed over at once) next to small ones: sizes beyond any internal
@@ -135,11 +153,14 @@ _CSI_ANY = re.compile(u'^\x1b\\[\\??(?:\\d+(?:;\\d+)*)?;?[^0-9;]$', re.DOTALL | 
 _FORMS = re.compile(u'^\x1b(?:\\[\\d*[ABCDJKHmqr]|\\[\\d+;\\d+[Hfrmq]|\\[\\d+(?:;\\d+)+[mq]|\\[\\?\\d+[hl]|\\[\\d+l|[78M><=]|[()][AB012]|#8)$', re.ASCII)
 
 
+_SURR = re.compile(u'^\x1b[(]?[\ud800-\udfff]$')
+
+
 def valid_token(tk):
     """Tokens are complete units by construction; a shrunk scenario must keep them so."""
     if u'\x1b' not in tk:
         return True
-    return tk in UNKNOWN_FORMS or bool(_FORMS.match(tk)) or bool(_CSI_ANY.match(tk))
+    return tk in UNKNOWN_FORMS or bool(_FORMS.match(tk)) or bool(_CSI_ANY.match(tk)) or bool(_SURR.match(tk))
 
 
 def snapshot(t):
@@ -176,6 +197,8 @@ def run(scn):
     mode = scn.get('mode', 'bytes')
     tenc = scn.get('tenc', 'latin-1')
     text = u''.join(toks)
+    if mode != 'str' and any(0xd800 <= ord(ch) <= 0xdfff for ch in text):
+        raise HarnessError('a lone surrogate exists in a str only: it cannot come out of a byte stream')
     out = []
     det = {'rows': rows, 'cols': cols, 'mode': mode, 'tenc': tenc, 'cuts': scn.get('cuts'), 'how': scn.get('how'),
            'tokens': [t for t in toks][:40]}
@@ -219,10 +242,15 @@ def run(scn):
     from .unicode_fam import pieces_of
     if scn['transport'] == 'direct':
         pcs = pieces_of(data, scn.get('cuts', []))
+        if scn.get('how') == 'process':
+            pcs = [data[i:i + 1] for i in range(len(data))]
         C = mk()
         try:
             for p in pcs:
-                C.write(p)
+                if scn.get('how') == 'process':
+                    C.process(p)
+                else:
+                    C.write(p)
                 e = check_shape(C, rows, cols)
                 if e:
                     V('C18.shape', 'after a delivery: %s' % e)
